@@ -6,9 +6,12 @@ import CruxVerif.Util.Hex
 namespace Driver.Mw
 open M.Mw Util
 
-/-- Does /repo's redirect.rs contain the repair of `redirect-relative-base` (`base_url` := the joined URL)?
-    Selects which of the two proved variants of the model is run against the code. -/
-def repoHasRedirectFix : Bool := false
+/-- Does /repo's redirect.rs contain the repair of `redirect-relative-base` (`base_url = base_url.join(..)?`)?
+    Selects which of the two proved variants of the model is run against the code. When the `fix:` is committed:
+    set this to `true`, turn the `finding: property=C16 key=redirect-relative-base` line of KNOWN_FINDINGS.txt into a
+    `fixed:` line, nothing else (both variants are proved in Props/C16.lean: `C16_partial` / `redirect_relative_partial`
+    speak about `false`, `C16_fixed` / `redirect_relative_fixed` about `true`). -/
+def repoHasRedirectFix : Bool := true
 
 structure Case where
   api : Api
@@ -172,12 +175,15 @@ def parseObs (s : String) : Option (Trace × Outcome) :=
     | _ => none
   | _ => none
 
-def model (line : String) : String :=
+def modelWith (fixed : Bool) (line : String) : String :=
   match parseCase line with
   | none => "bad-case"
   | some c =>
-    let o := runCase c.world repoHasRedirectFix c.api c.client c.stack c.req
+    let o := runCase c.world fixed c.api c.client c.stack c.req
     if hasMissing o then "bad-case" else showObs o
+
+/-- engine `mw`: the variant of the model that mirrors /repo now. (`cruxdrv model mw-fixed` runs the other one.) -/
+def model : String → String := modelWith repoHasRedirectFix
 
 def oracle (line : String) : String :=
   match line.splitOn "\t" with
@@ -186,6 +192,7 @@ def oracle (line : String) : String :=
     | none => "bad-case"
     | some c =>
       if hasMissing (S.Mw.expected c.world c.api c.client c.stack c.req) then "bad-case" else
+      if os == "crash" || os == "panic" then "reject " ++ os else   -- the code under test died on this case
       match parseObs os with
       | none => "reject unparseable-observation"
       | some o =>
